@@ -274,3 +274,24 @@ func init() {
 		return &TupleV{Vs: []Val{coins, Ite(ok, IntLit(0), IntLit(995))}}
 	}
 }
+
+// ---------------- custom/bank/keeper (C11: supply queries) ----------------
+
+func init() {
+	bk := "github.com/cosmos/cosmos-sdk/x/bank/keeper"
+	getSupply := func(m *Machine, _ *Frame, _ *ssa.CallCommon, a []Val) Val {
+		m.E.Assume("A-BANK", "x/bank: SendCoins* is all-or-nothing, moves exactly the listed amounts, fails iff the coins are invalid (a listed coin with amount <= 0), the sender's spendable balance is short, or (ModuleToAccount) the recipient is a blocked address; Mint/Burn change balance and supply by the amount; GetBalance reads the balance")
+		d := term(a[2])
+		return m.E.mkCoin(false, d, Select(m.Supply(), d))
+	}
+	models["("+bk+".BaseKeeper).GetSupply"] = getSupply
+	models["("+bk+".BaseViewKeeper).GetSupply"] = getSupply
+	models["("+bk+".BaseSendKeeper).GetSupply"] = getSupply
+	models["(github.com/cosmos/cosmos-sdk/x/auth/keeper.AccountKeeper).GetModuleAddress"] = func(m *Machine, _ *Frame, _ *ssa.CallCommon, a []Val) Val {
+		return m.E.moduleAddr(term(a[1]))
+	}
+	invokeModels["github.com/terra-money/alliance/custom/bank/types.StakingKeeper.BondDenom"] = func(m *Machine, _ *Frame, _ *ssa.CallCommon, a []Val) Val {
+		m.E.declStaking()
+		return &TupleV{Vs: []Val{T(SStr, "bondDenom"), IntLit(0)}}
+	}
+}
